@@ -27,6 +27,8 @@ def shards(tier):
         {"name": "ctor.torch", "mode": "jit", "backend": "torch", "fn": "ctor", "n": 40 if q else 1500},
         {"name": "sstate.np.interp", "mode": "interp", "backend": "np", "fn": "sstate", "n": 150 if q else 3000},
         {"name": "sstate.np.jit", "mode": "jit", "backend": "np", "fn": "sstate", "n": 400 if q else 20000},
+        {"name": "forms.sstate.np.jit", "mode": "jit", "backend": "np", "fn": "sstate", "n": 120 if q else 5000, "forms": 1},
+        {"name": "forms.maps.np.jit", "mode": "jit", "backend": "np", "fn": "maps", "stride": 96 if q else 12, "forms": 1},
         {"name": "sstate.torch", "mode": "jit", "backend": "torch", "fn": "sstate", "n": 60 if q else 2000},
     ]
     return out
